@@ -240,6 +240,18 @@ def freeform_model(ff, rnd):
     return ops, xs, ys
 
 
+def _as_iterable(verts, k):
+    """the vertices as the kinds of iterable callers pass: list, tuple, or a one-shot iterator / generator"""
+    k %= 4
+    if k == 0:
+        return verts
+    if k == 1:
+        return tuple(verts)
+    if k == 2:
+        return iter(verts)
+    return (v for v in verts)
+
+
 def _scales(scale):
     if isinstance(scale, (list, tuple)):
         return scale[0], scale[1]
@@ -339,7 +351,7 @@ def build_freeform(shapes, ff):
         for i, c in enumerate(ff["contours"]):
             if i > 0:
                 fb.move_to(c["move"][0], c["move"][1])
-            verts = [(v[0], v[1]) for v in c["verts"]]
+            verts = _as_iterable([(v[0], v[1]) for v in c["verts"]], i + len(c["verts"]))
             if c["close"] is None:
                 fb.add_line_segments(verts)
             else:
